@@ -38,7 +38,7 @@ fn mutate(f: &[u8], m: &[&str]) -> Vec<u8> {
     v
 }
 
-fn why(msg: &str) -> u32 {
+pub fn why(msg: &str) -> u32 {
     if msg.contains("Invalid Record Type") {
         1
     } else if msg.contains("non-zero byte in padding") {
